@@ -1127,6 +1127,33 @@ pub fn gen_pool(seed: u64, n: usize) -> BTreeMap<String, String> {
             pool.insert("deepmany.sol".to_string(), t);
         }
     }
+    // files whose contracts repeat each other's names (one shared state variable declared in two
+    // contracts and written by a third that does not declare it, and seeded variations)
+    {
+        let idx = |key: &str| crate::corpus::FRAGS.iter().position(|f| f.key == key).unwrap_or(0);
+        let t = crate::corpus::render(&crate::corpus::TextSpec {
+            pragma: 3,
+            contracts: vec![
+                vec![idx("clash_plain"), idx("sstore")],
+                vec![idx("constant_variables"), idx("clash_plain")],
+                vec![idx("clash_writer"), idx("sstore")],
+            ],
+            spdx: false,
+            blank_lines: vec![1, 2, 1],
+            clash: true,
+            kinds: vec![0, 0, 3],
+            extras: vec![],
+        });
+        if screen.ok(&t) {
+            pool.insert("clash_heir.sol".to_string(), t);
+        }
+        for k in 0..4 {
+            let t = crate::corpus::render(&crate::corpus::gen_clash_spec(&mut rng));
+            if screen.ok(&t) {
+                pool.insert(format!("clash{}.sol", k), t);
+            }
+        }
+    }
     // white-space-only placeholder files (not screened: version-dependent detectors abort on them;
     // they only ever appear as siblings in directory operations restricted to tolerant patterns)
     for (i, t) in ["\n\n\n", "  \n\t\n \n\n\n\n\n", "\n"].iter().enumerate() {
